@@ -19,6 +19,7 @@ try:
         for d in detail: print("   ", d[:220])
 finally:
     subprocess.run(["git", "-C", "/repo", "checkout", "--", "."], check=True)
+    subprocess.run(["git", "-C", "/repo", "clean", "-fdq", "--", "src"], check=True)
 mp = os.path.join(V, "seeded", name, "meta.json")
 m = json.load(open(mp))
 m.setdefault("checks", {}).update(res)
